@@ -483,7 +483,28 @@ class Function:
     def walk(self):
         if self.body is None:
             return iter(())
-        return self.body.walk()
+        dead = self._dead_ids()
+        if not dead:
+            return self.body.walk()
+        return self._walk_live(dead)
+
+    def _dead_ids(self):
+        """statements under the cases a `switch (<constant>)` never enters (the tag of an inlined generic helper): not part of this function"""
+        d = getattr(self, "_dead", None)
+        if d is None:
+            self._dead = d = frozenset()
+            if any(n.k == "SwitchStmt" for n in self.nodes) and self.j.get("cfg") is not None:
+                self._dead = d = frozenset(self.cfg.pruned)
+        return d
+
+    def _walk_live(self, dead):
+        stack = [self.body]
+        while stack:
+            n = stack.pop()
+            if n.id in dead:
+                continue
+            yield n
+            stack.extend(reversed(n.children))
 
     def calls(self, callee=None):
         """All CallExpr nodes (optionally to one callee / a set of callees)."""
